@@ -160,7 +160,7 @@ impl Schedule {
     pub open spec fn ids_ok(&self) -> bool {
         ids_valid(self.vehicles@, self.tours@, self.dummy_tours@, self.dummy_ids_sorted@, self.vehicle_counter)
     }
-    /// the id the next new dummy tour gets
+    /// the id the next new dummy tour gets (ids are 16 bit: meaningful while fewer than 2^16 ids have been handed out)
     pub open spec fn next_dummy_id(&self) -> VehicleIdx { VehicleIdx::Dummy(self.vehicle_counter as Idx) }
 }
 
@@ -191,11 +191,14 @@ pub proof fn lemma_ins_unique(t: &Tour, n: Seq<NodeIdx>, s: int, e: int)
 // =====================================================================================================
 // Schedule::override_reassign: vocabulary of the contract
 // =====================================================================================================
+/// the tour stored for v in a pair of tour maps (`tour_of`: the vehicle's tour, a dummy's tour otherwise), if there is one
+pub open spec fn tour_in(tours: TourMap, dummies: TourMap, v: VehicleIdx) -> Tour {
+    if tours.contains_key(v) { tours[v] } else { dummies[v] }
+}
+pub open spec fn tour_opt_in(tours: TourMap, dummies: TourMap, v: VehicleIdx) -> Option<Tour> {
+    if tours.contains_key(v) || dummies.contains_key(v) { Some(tour_in(tours, dummies, v)) } else { None }
+}
 impl Schedule {
-    /// the tour of v, if it has one
-    pub open spec fn tour_opt(&self, v: VehicleIdx) -> Option<Tour> {
-        if self.has_tour(v) { Some(self.sp_tour_of(v)) } else { None }
-    }
     // ---- the segment in the provider's tour (vocabulary of Tour::remove's contract) ----------------------
     pub open spec fn or_lo(&self, segment: Segment, p: VehicleIdx) -> int { self.sp_tour_of(p).index_of(segment.start) }
     pub open spec fn or_hi(&self, segment: Segment, p: VehicleIdx) -> int { self.sp_tour_of(p).index_of(segment.end) }
@@ -287,8 +290,8 @@ impl Schedule {
         // the bookkeeping of update_tours / of the rotation cycles runs once per vehicle: provider and receiver differ (the
         // only enumerator, Neighborhood::segment_exchange_iterator, "skip[s] provider as receiver")
         &&& p != rcv
-        // C10 (ids): see ids_valid; A-idwidth: ids are 16 bit (`vehicle_counter as Idx`), fewer than 2^16 handed out so far
-        &&& self.ids_ok() && self.vehicle_counter <= 0xffff
+        // C10 (ids): see ids_valid
+        &&& self.ids_ok()
         // C10 / C01 / C09 for the two participants
         &&& self.part_ok(p) && self.part_ok(rcv)
         // the segment is a segment of the provider's tour that does not consist of depots only (the two `unwrap`s of the
@@ -340,59 +343,63 @@ impl Schedule {
                 && ntr.wf() && ntr.caches_ok()
     }
     /// C13: "the provider loses exactly the moved nodes … a vehicle left without activities disappears": in the new
-    /// schedule `res` the provider either has the tour Tour::remove returns (same kind of tour, in the same map) or is gone
-    pub open spec fn or_provider_after(&self, segment: Segment, p: VehicleIdx, rcv: VehicleIdx, res: &Schedule) -> bool {
+    /// schedule (vehicles1 / tours1 / dummies1 = its three maps) the provider either has the tour Tour::remove returns (same
+    /// kind of tour, in the same map) or is gone
+    pub open spec fn or_provider_after(&self, segment: Segment, p: VehicleIdx, rcv: VehicleIdx, vehicles1: VehicleMap, tours1: TourMap, dummies1: TourMap) -> bool {
         let tp = self.sp_tour_of(p);
-        let stp = res.tour_opt(p);
+        let stp = tour_opt_in(tours1, dummies1, p);
         &&& stp is Some ==> stp.unwrap().nodes@ == self.or_kept(segment, p) && stp.unwrap().is_dummy == tp.is_dummy
                 && stp.unwrap().network == tp.network && stp.unwrap().wf() && stp.unwrap().caches_ok()
-                && res.tours@.contains_key(p) == self.tours@.contains_key(p)
-        &&& res.vehicles@ == self.vehicles_after(self.vehicles@, Some(p), stp)
+                && tours1.contains_key(p) == self.tours@.contains_key(p)
+        &&& vehicles1 == self.vehicles_after(self.vehicles@, Some(p), stp)
     }
     /// C13: "the receiver gains them (override)": its new tour is the longest prefix of its old tour that reaches the moved
     /// nodes + the moved nodes + the longest suffix they reach (Tour::insert_path)
-    pub open spec fn or_receiver_after(&self, segment: Segment, p: VehicleIdx, rcv: VehicleIdx, res: &Schedule) -> bool {
+    pub open spec fn or_receiver_after(&self, segment: Segment, p: VehicleIdx, rcv: VehicleIdx, tours1: TourMap, dummies1: TourMap) -> bool {
         let tr = self.sp_tour_of(rcv);
-        let ntr = res.sp_tour_of(rcv);
-        &&& res.has_tour(rcv) && res.tours@.contains_key(rcv) == self.tours@.contains_key(rcv)
+        let ntr = tour_in(tours1, dummies1, rcv);
+        &&& tour_opt_in(tours1, dummies1, rcv) is Some && tours1.contains_key(rcv) == self.tours@.contains_key(rcv)
         &&& ntr.nodes@ == self.or_gained(segment, p, rcv) && ntr.is_dummy == tr.is_dummy && ntr.network == tr.network
                 && ntr.wf() && ntr.caches_ok()
     }
     /// C13: "all other vehicles' tours … stay untouched": the two tour maps are the old ones with the provider's and the
     /// receiver's entries rewritten (vocabulary of env/update_tours_shim.vs; lemma_frame spells the frame out per key) and
     /// -- iff a displaced service trip exists -- ONE new entry under the next dummy id
-    pub open spec fn or_maps_after(&self, segment: Segment, p: VehicleIdx, rcv: VehicleIdx, res: &Schedule) -> bool {
-        let stp = res.tour_opt(p);
-        let ntr = res.sp_tour_of(rcv);
+    pub open spec fn or_maps_after(&self, segment: Segment, p: VehicleIdx, rcv: VehicleIdx, tours1: TourMap, dummies1: TourMap) -> bool {
+        let stp = tour_opt_in(tours1, dummies1, p);
+        let ntr = tour_in(tours1, dummies1, rcv);
         let id = self.next_dummy_id();
         let d1 = self.dummies_after(self.dummy_tours@, Some(p), stp, rcv, ntr);
-        &&& res.tours@ == self.tours_after(self.tours@, Some(p), stp, rcv, ntr)
-        &&& res.dummy_tours@ == (if self.or_creates_dummy(segment, p, rcv) { d1.insert(id, res.dummy_tours@[id]) } else { d1 })
-        &&& res.network == self.network
+        &&& tours1 == self.tours_after(self.tours@, Some(p), stp, rcv, ntr)
+        &&& dummies1 == (if self.or_creates_dummy(segment, p, rcv) { d1.insert(id, dummies1[id]) } else { d1 })
     }
     /// C13: "displaced … service trips are handed back … in a new dummy tour": iff the displaced nodes contain a service
     /// trip a dummy tour is stored under the next id (a fresh one), it holds exactly the displaced service trips in order
     /// (what Tour::new_dummy keeps), the counter is bumped and the id is reported
-    pub open spec fn or_dummy_after(&self, segment: Segment, p: VehicleIdx, rcv: VehicleIdx, res: &Schedule, nd: Option<VehicleIdx>) -> bool {
+    pub open spec fn or_dummy_after(&self, segment: Segment, p: VehicleIdx, rcv: VehicleIdx, dummies1: TourMap, counter1: usize, nd: Option<VehicleIdx>) -> bool {
         let id = self.next_dummy_id();
         if self.or_creates_dummy(segment, p, rcv) {
             &&& nd == Some(id) && !self.dummy_tours@.contains_key(id) && id != p && id != rcv
-            &&& res.dummy_tours@.contains_key(id)
-            &&& res.dummy_tours@[id].nodes@ == svc_filter(&self.network, self.or_displaced(segment, p, rcv))
-            &&& res.dummy_tours@[id].is_dummy && res.dummy_tours@[id].network == self.network && res.dummy_tours@[id].caches_ok()
-            &&& res.vehicle_counter == self.vehicle_counter + 1
+            &&& dummies1.contains_key(id)
+            &&& dummies1[id].nodes@ == svc_filter(&self.network, self.or_displaced(segment, p, rcv))
+            &&& dummies1[id].is_dummy && dummies1[id].network == self.network && dummies1[id].caches_ok()
+            &&& counter1 == self.vehicle_counter + 1
         } else {
-            nd is None && res.vehicle_counter == self.vehicle_counter
+            nd is None && counter1 == self.vehicle_counter
         }
     }
     /// C13 / C10: the listings: a deleted provider leaves its list (lists_follow, env/update_tours_shim.vs), then the new
     /// dummy id -- if any -- enters the sorted dummy list
-    pub open spec fn or_lists_after(&self, segment: Segment, p: VehicleIdx, rcv: VehicleIdx, res: &Schedule) -> bool {
-        exists|ids1: Seq<VehicleIdx>| #[trigger] self.lists_follow(self.vehicle_ids_grouped_and_sorted@, res.vehicle_ids_grouped_and_sorted@,
-                self.dummy_ids_sorted@, ids1, Some(p), res.tour_opt(p))
-            && (if self.or_creates_dummy(segment, p, rcv) { ids_gain(ids1, res.dummy_ids_sorted@, self.next_dummy_id()) }
-                else { res.dummy_ids_sorted@ == ids1 })
-            && sorted_cmp(res.dummy_ids_sorted@)
+    pub open spec fn or_lists_after(&self, segment: Segment, p: VehicleIdx, rcv: VehicleIdx, tours1: TourMap, dummies1: TourMap, grouped1: Grouped, ids2: Seq<VehicleIdx>) -> bool {
+        exists|ids1: Seq<VehicleIdx>| #[trigger] self.lists_follow(self.vehicle_ids_grouped_and_sorted@, grouped1,
+                self.dummy_ids_sorted@, ids1, Some(p), tour_opt_in(tours1, dummies1, p))
+            && (if self.or_creates_dummy(segment, p, rcv) { ids_gain(ids1, ids2, self.next_dummy_id()) } else { ids2 == ids1 })
+            && sorted_cmp(ids2)
+    }
+    /// C09: the costs: minus the old tours of the (real) participants, plus their new ones
+    pub open spec fn or_costs_after(&self, p: VehicleIdx, rcv: VehicleIdx, tours1: TourMap, dummies1: TourMap, costs1: Cost) -> bool {
+        costs1 == self.costs - self.cost_out_provider(self.tours@, Some(p)) - self.cost_out_receiver(self.tours@, rcv)
+            + self.cost_in_provider(Some(p), tour_opt_in(tours1, dummies1, p)) + self.cost_in_receiver(rcv, tour_in(tours1, dummies1, rcv))
     }
 
     // ---- formations (C10 / C03 / C13) -------------------------------------------------------------------------
@@ -432,26 +439,27 @@ impl Schedule {
     }
 
     // ---- cached aggregates (C09) ------------------------------------------------------------------------------
-    /// C09: the unserved-passenger pair: the exact delta of the first formation update, then of the second one (on the
-    /// table the first one leaves)
+    /// C09: the unserved-passenger pair: the exact delta of the first formation update, then -- for a real receiver -- the one
+    /// of taking the receiver out of the formations of the displaced nodes (on the table the first update leaves; depots and
+    /// maintenance slots contribute 0)
     pub open spec fn or_unserved_after(&self, segment: Segment, p: VehicleIdx, rcv: VehicleIdx, uf: (PassengerCount, PassengerCount)) -> bool {
         let d = self.or_displaced(segment, p, rcv);
         let k = d.len() as int;
         exists|tf1: Formations, u1: (PassengerCount, PassengerCount)| #[trigger] self.or_between(segment, p, rcv, tf1, u1)
-            && (if self.or_second_update(segment, p, rcv) {
+            && (if self.sp_is_vehicle(rcv) {
                     &&& uf.0 == u1.0 - self.un_sum(tf1, Some(rcv), None, d, k, false, 0) + self.un_sum(tf1, Some(rcv), None, d, k, true, 0)
                     &&& uf.1 == u1.1 - self.un_sum(tf1, Some(rcv), None, d, k, false, 1) + self.un_sum(tf1, Some(rcv), None, d, k, true, 1)
                 } else { uf == u1 })
     }
     /// C15 / C10 / C09: the rotation cycles follow the new vehicles / tours, the maintenance violation is their from-scratch
     /// sum, the transitions of the types of neither participant are untouched
-    pub open spec fn or_transitions_after(&self, p: VehicleIdx, rcv: VehicleIdx, res: &Schedule) -> bool {
-        let trs1 = res.next_period_transitions@;
+    pub open spec fn or_transitions_after(&self, p: VehicleIdx, rcv: VehicleIdx, trs1: Map<VehicleTypeIdx, Transition>, mv1: MaintenanceCounter,
+            vehicles1: VehicleMap, tours1: TourMap) -> bool {
         &&& forall|vt: VehicleTypeIdx| self.next_period_transitions@.contains_key(vt) <==> #[trigger] trs1.contains_key(vt)
-        &&& forall|vt: VehicleTypeIdx| #[trigger] trs1.contains_key(vt) ==> trs1[vt].wf(&self.network, res.tours@)
+        &&& forall|vt: VehicleTypeIdx| #[trigger] trs1.contains_key(vt) ==> trs1[vt].wf(&self.network, tours1)
         &&& forall|vt: VehicleTypeIdx, u: VehicleIdx| #![trigger trs1[vt].has_vehicle(u)] trs1.contains_key(vt)
-                ==> (trs1[vt].has_vehicle(u) <==> (res.vehicles@.contains_key(u) && vtype(res.vehicles@[u]) == vt))
-        &&& res.maintenance_violation as int == viol_sum(trs1, sched_types(self))
+                ==> (trs1[vt].has_vehicle(u) <==> (vehicles1.contains_key(u) && vtype(vehicles1[u]) == vt))
+        &&& mv1 as int == viol_sum(trs1, sched_types(self))
         &&& forall|vt: VehicleTypeIdx| #[trigger] trs1.contains_key(vt)
                 && !(self.sp_is_vehicle(p) && self.type_of(p) == vt) && !(self.sp_is_vehicle(rcv) && self.type_of(rcv) == vt)
                 ==> trs1[vt] == self.next_period_transitions@[vt]
@@ -480,6 +488,10 @@ pub proof fn lemma_or_setup(s: &Schedule, segment: Segment, p: VehicleIdx, rcv: 
         *s.sp_tour_of(p).network == *s.network,
         s.sp_tour_of(p).network.has(segment.start), s.sp_tour_of(p).network.has(segment.end),
         s.network.wf(),
+        exists|i: int, j: int| #[trigger] Schedule::seg_at(&s.sp_tour_of(p), segment, i, j)
+            && !all_depots(&s.network, s.sp_tour_of(p).nodes@.subrange(i, j + 1)),
+        listings_ok(s.vehicles@, s.dummy_tours@, s.vehicle_ids_grouped_and_sorted@, s.dummy_ids_sorted@),
+        usage_exact(s.depot_usage@, &s.network, s.vehicles@, s.tours@),
 {
     let tp = s.sp_tour_of(p);
     let (i, j) = choose|i: int, j: int| #[trigger] Schedule::seg_at(&tp, segment, i, j) && !all_depots(&s.network, tp.nodes@.subrange(i, j + 1));
@@ -631,7 +643,7 @@ pub proof fn lemma_listing_sorted(vehicles: VehicleMap, dummies: TourMap, groupe
 // =====================================================================================================
 /// the next dummy id is fresh (C10 ids: every stored dummy id is below the counter; real vehicles have `Vehicle` ids)
 pub proof fn lemma_or_fresh_id(s: &Schedule, segment: Segment, p: VehicleIdx, rcv: VehicleIdx)
-    requires s.or_pre(segment, p, rcv),
+    requires s.or_pre(segment, p, rcv), s.vehicle_counter <= 0xffff,
     ensures
         !s.dummy_tours@.contains_key(s.next_dummy_id()), !s.vehicles@.contains_key(s.next_dummy_id()), !s.tours@.contains_key(s.next_dummy_id()),
         s.next_dummy_id() != p, s.next_dummy_id() != rcv,
@@ -640,67 +652,76 @@ pub proof fn lemma_or_fresh_id(s: &Schedule, segment: Segment, p: VehicleIdx, rc
     if s.dummy_tours@.contains_key(id) { assert((id->Dummy_0 as int) < s.vehicle_counter); }
     if s.vehicles@.contains_key(id) { assert(id is Vehicle); }
 }
-/// C13 (1): provider, receiver, all other tours, the new dummy tour
-pub proof fn lemma_or_tours_post(s: &Schedule, segment: Segment, p: VehicleIdx, rcv: VehicleIdx, res: &Schedule,
-        stp: Option<Tour>, ntr: Tour, ndt: Option<Tour>, nd: Option<VehicleIdx>)
+/// C13 (1) / C09: provider, receiver, all other tours, the new dummy tour, the costs
+pub proof fn lemma_or_tours_post(s: &Schedule, segment: Segment, p: VehicleIdx, rcv: VehicleIdx,
+        stp: Option<Tour>, ntr: Tour, ndt: Option<Tour>, nd: Option<VehicleIdx>,
+        vehicles1: VehicleMap, tours1: TourMap, dummies1: TourMap, counter1: usize, costs1: Cost)
     requires s.or_pre(segment, p, rcv), s.or_removes(segment, p), s.or_new_tours(segment, p, rcv, stp, ntr),
     ensures
         ({
             let id = s.next_dummy_id();
             let d1 = s.dummies_after(s.dummy_tours@, Some(p), stp, rcv, ntr);
-            &&& res.vehicles@ == s.vehicles_after(s.vehicles@, Some(p), stp)
-            &&& res.tours@ == s.tours_after(s.tours@, Some(p), stp, rcv, ntr)
-            &&& res.dummy_tours@ == (match ndt { Some(t) => d1.insert(id, t), None => d1 })
-            &&& res.network == s.network
+            &&& vehicles1 == s.vehicles_after(s.vehicles@, Some(p), stp)
+            &&& tours1 == s.tours_after(s.tours@, Some(p), stp, rcv, ntr)
+            &&& dummies1 == (match ndt { Some(t) => d1.insert(id, t), None => d1 })
+            // a new dummy tour is only stored if an id is left (Schedule::next_free_idx)
+            &&& ndt is Some ==> s.vehicle_counter <= 0xffff
         }) ==> {
-            &&& res.tour_opt(p) == stp && res.sp_tour_of(rcv) == ntr
-            &&& s.or_provider_after(segment, p, rcv, res)
-            &&& s.or_receiver_after(segment, p, rcv, res)
-            &&& (ndt is Some <==> s.or_creates_dummy(segment, p, rcv)) ==> s.or_maps_after(segment, p, rcv, res)
+            &&& tour_opt_in(tours1, dummies1, p) == stp && tour_in(tours1, dummies1, rcv) == ntr
+            &&& s.or_provider_after(segment, p, rcv, vehicles1, tours1, dummies1)
+            &&& s.or_receiver_after(segment, p, rcv, tours1, dummies1)
+            &&& (ndt is Some <==> s.or_creates_dummy(segment, p, rcv)) ==> s.or_maps_after(segment, p, rcv, tours1, dummies1)
             &&& (ndt is Some <==> s.or_creates_dummy(segment, p, rcv))
                 && (ndt is Some ==> ndt.unwrap().nodes@ == svc_filter(&s.network, s.or_displaced(segment, p, rcv)) && ndt.unwrap().is_dummy
                         && ndt.unwrap().network == s.network && ndt.unwrap().caches_ok()
-                        && nd == Some(s.next_dummy_id()) && res.vehicle_counter == s.vehicle_counter + 1)
-                && (ndt is None ==> nd is None && res.vehicle_counter == s.vehicle_counter)
-                ==> s.or_dummy_after(segment, p, rcv, res, nd)
+                        && nd == Some(s.next_dummy_id()) && counter1 == s.vehicle_counter + 1)
+                && (ndt is None ==> nd is None && counter1 == s.vehicle_counter)
+                ==> s.or_dummy_after(segment, p, rcv, dummies1, counter1, nd)
+            &&& costs1 == s.costs - s.cost_out_provider(s.tours@, Some(p)) - s.cost_out_receiver(s.tours@, rcv)
+                    + s.cost_in_provider(Some(p), stp) + s.cost_in_receiver(rcv, ntr)
+                ==> s.or_costs_after(p, rcv, tours1, dummies1, costs1)
         },
 {
     lemma_or_setup(s, segment, p, rcv);
-    lemma_or_fresh_id(s, segment, p, rcv);
+    if s.vehicle_counter <= 0xffff { lemma_or_fresh_id(s, segment, p, rcv); }
     let id = s.next_dummy_id();
     let d1 = s.dummies_after(s.dummy_tours@, Some(p), stp, rcv, ntr);
-    if res.vehicles@ == s.vehicles_after(s.vehicles@, Some(p), stp)
-        && res.tours@ == s.tours_after(s.tours@, Some(p), stp, rcv, ntr)
-        && res.dummy_tours@ == (match ndt { Some(t) => d1.insert(id, t), None => d1 })
-        && res.network == s.network {
-        assert(res.tour_opt(p) == stp);
-        assert(res.sp_tour_of(rcv) == ntr);
+    if vehicles1 == s.vehicles_after(s.vehicles@, Some(p), stp)
+        && tours1 == s.tours_after(s.tours@, Some(p), stp, rcv, ntr)
+        && dummies1 == (match ndt { Some(t) => d1.insert(id, t), None => d1 })
+        && (ndt is Some ==> s.vehicle_counter <= 0xffff) {
+        assert(tour_opt_in(tours1, dummies1, p) == stp);
+        assert(tour_in(tours1, dummies1, rcv) == ntr);
         if ndt is Some <==> s.or_creates_dummy(segment, p, rcv) {
-            if ndt is Some { assert(res.dummy_tours@[id] == ndt.unwrap()); }
-            assert(s.or_maps_after(segment, p, rcv, res));
+            if ndt is Some { assert(dummies1[id] == ndt.unwrap()); }
+            assert(s.or_maps_after(segment, p, rcv, tours1, dummies1));
         }
     }
 }
 /// C13 / C10: the listings
-pub proof fn lemma_or_lists_post(s: &Schedule, segment: Segment, p: VehicleIdx, rcv: VehicleIdx, res: &Schedule, stp: Option<Tour>, ids1: Seq<VehicleIdx>)
+pub proof fn lemma_or_lists_post(s: &Schedule, segment: Segment, p: VehicleIdx, rcv: VehicleIdx, stp: Option<Tour>,
+        tours1: TourMap, dummies1: TourMap, grouped1: Grouped, ids1: Seq<VehicleIdx>, ids2: Seq<VehicleIdx>)
     ensures
-        res.tour_opt(p) == stp
-            && s.lists_follow(s.vehicle_ids_grouped_and_sorted@, res.vehicle_ids_grouped_and_sorted@, s.dummy_ids_sorted@, ids1, Some(p), stp)
-            && (if s.or_creates_dummy(segment, p, rcv) { ids_gain(ids1, res.dummy_ids_sorted@, s.next_dummy_id()) } else { res.dummy_ids_sorted@ == ids1 })
-            && sorted_cmp(res.dummy_ids_sorted@)
-            ==> s.or_lists_after(segment, p, rcv, res),
+        tour_opt_in(tours1, dummies1, p) == stp
+            && s.lists_follow(s.vehicle_ids_grouped_and_sorted@, grouped1, s.dummy_ids_sorted@, ids1, Some(p), stp)
+            && (if s.or_creates_dummy(segment, p, rcv) { ids_gain(ids1, ids2, s.next_dummy_id()) } else { ids2 == ids1 })
+            && sorted_cmp(ids2)
+            ==> s.or_lists_after(segment, p, rcv, tours1, dummies1, grouped1, ids2),
 {
 }
 /// C10 / C03 / C13 (2): the formations after the two formation updates (tf1 = the table between them, tf2 = the final one)
 pub proof fn lemma_or_formations_post(s: &Schedule, segment: Segment, p: VehicleIdx, rcv: VehicleIdx, tf1: Formations, u1: (PassengerCount, PassengerCount), tf2: Formations)
     requires s.or_pre(segment, p, rcv),
     ensures
+        // the second update -- if it runs at all -- rewrites displaced nodes only, for a real receiver only
+        s.or_between(segment, p, rcv, tf1, u1)
+            && (tf2 == tf1 || (s.sp_is_vehicle(rcv) && s.formations_elsewhere_untouched(s.or_displaced(segment, p, rcv), tf1, tf2)))
+            ==> s.or_formations_elsewhere(segment, p, rcv, tf2) && s.or_formations_moved(segment, p, rcv, tf2),
+        // it runs whenever the receiver is real and some displaced node is not a depot
         s.or_between(segment, p, rcv, tf1, u1)
             && (s.or_second_update(segment, p, rcv) ==> s.formations_elsewhere_untouched(s.or_displaced(segment, p, rcv), tf1, tf2)
                     && s.moved_get_replacement(s.or_displaced(segment, p, rcv), tf1, tf2, Some(rcv), None))
-            && (!s.or_second_update(segment, p, rcv) ==> tf2 == tf1)
-            ==> s.or_formations_elsewhere(segment, p, rcv, tf2) && s.or_formations_moved(segment, p, rcv, tf2)
-                && s.or_formations_displaced(segment, p, rcv, tf2),
+            ==> s.or_formations_displaced(segment, p, rcv, tf2),
 {
     let net = &s.network;
     let tf0 = s.train_formations@;
@@ -709,9 +730,7 @@ pub proof fn lemma_or_formations_post(s: &Schedule, segment: Segment, p: Vehicle
     let rv = s.sp_receiver_vehicle(rcv);
     let second = s.or_second_update(segment, p, rcv);
     let none: Option<Vehicle> = None;
-    if s.or_between(segment, p, rcv, tf1, u1)
-        && (second ==> s.formations_elsewhere_untouched(d, tf1, tf2) && s.moved_get_replacement(d, tf1, tf2, Some(rcv), none))
-        && (!second ==> tf2 == tf1) {
+    if s.or_between(segment, p, rcv, tf1, u1) {
         // the table between the two updates, node by node
         assert forall|n: NodeIdx| (#[trigger] tf1[n]).formation@ == s.or_form_mid(segment, p, rcv, n) by {
             if !moved_nd(net, m, n) { assert(tf1[n] == tf0[n]); }
@@ -721,49 +740,74 @@ pub proof fn lemma_or_formations_post(s: &Schedule, segment: Segment, p: Vehicle
             let i = choose|i: int| 0 <= i < d.len() && d[i] == n;
             assert(!net.sp_node(d[i]).sp_is_depot());
         }
-        assert forall|n: NodeIdx| !s.or_rcv_leaves(segment, p, rcv, n) implies #[trigger] tf2[n] == tf1[n] by {
-            if second { assert(!moved_nd(net, d, n)); }
+        if tf2 == tf1 || (s.sp_is_vehicle(rcv) && s.formations_elsewhere_untouched(d, tf1, tf2)) {
+            assert forall|n: NodeIdx| !s.or_rcv_leaves(segment, p, rcv, n) implies #[trigger] tf2[n] == tf1[n] by {
+                if tf2 != tf1 { assert(!moved_nd(net, d, n)); }
+            }
+            assert(tf2.dom() == tf0.dom());
+            assert forall|n: NodeIdx| #![trigger s.or_rcv_leaves(segment, p, rcv, n)] #![trigger tf2[n]]
+                !moved_nd(net, m, n) && !s.or_rcv_leaves(segment, p, rcv, n) implies tf2[n] == tf0[n] by {
+                assert(tf2[n] == tf1[n]);
+                assert(tf1[n] == tf0[n]);
+            }
+            assert forall|n: NodeIdx| #![trigger s.or_rcv_leaves(segment, p, rcv, n)] #![trigger tf2[n]]
+                moved_nd(net, m, n) && !s.or_rcv_leaves(segment, p, rcv, n) implies
+                tf2[n].formation@ == s.or_form_mid(segment, p, rcv, n) && s.repl_ok(tf0[n].formation@, Some(p), rv, n) by {
+                assert(tf2[n] == tf1[n]);
+                assert(tf1[n].formation@ == s.or_form_mid(segment, p, rcv, n));
+            }
+            assert(s.or_formations_elsewhere(segment, p, rcv, tf2));
+            assert(s.or_formations_moved(segment, p, rcv, tf2));
         }
-        assert(tf2.dom() == tf0.dom());
-        assert forall|n: NodeIdx| #![trigger s.or_rcv_leaves(segment, p, rcv, n)] #![trigger tf2[n]]
-            !moved_nd(net, m, n) && !s.or_rcv_leaves(segment, p, rcv, n) implies tf2[n] == tf0[n] by {
-            assert(tf2[n] == tf1[n]);
-            assert(tf1[n] == tf0[n]);
+        if second ==> s.formations_elsewhere_untouched(d, tf1, tf2) && s.moved_get_replacement(d, tf1, tf2, Some(rcv), none) {
+            assert forall|n: NodeIdx| #![trigger s.or_rcv_leaves(segment, p, rcv, n)] #![trigger tf2[n]] s.or_rcv_leaves(segment, p, rcv, n) implies
+                has_vehicle(s.or_form_mid(segment, p, rcv, n), rcv)
+                && tf2[n].formation@ == s.or_form_mid(segment, p, rcv, n).remove(first_pos(s.or_form_mid(segment, p, rcv, n), rcv)) by {
+                assert(second);
+                assert(moved_nd(net, d, n));
+                assert(s.shrinks(Some(rcv), none));
+                assert(tf1[n].formation@ == s.or_form_mid(segment, p, rcv, n));
+                assert(tf2[n].formation@ == s.repl_seq(tf1[n].formation@, Some(rcv), none));
+                assert(s.repl_ok(tf1[n].formation@, Some(rcv), none, n));
+            }
+            assert(s.or_formations_displaced(segment, p, rcv, tf2));
         }
-        assert forall|n: NodeIdx| #![trigger s.or_rcv_leaves(segment, p, rcv, n)] #![trigger tf2[n]]
-            moved_nd(net, m, n) && !s.or_rcv_leaves(segment, p, rcv, n) implies
-            tf2[n].formation@ == s.or_form_mid(segment, p, rcv, n) && s.repl_ok(tf0[n].formation@, Some(p), rv, n) by {
-            assert(tf2[n] == tf1[n]);
-            assert(tf1[n].formation@ == s.or_form_mid(segment, p, rcv, n));
-        }
-        assert forall|n: NodeIdx| #![trigger s.or_rcv_leaves(segment, p, rcv, n)] #![trigger tf2[n]] s.or_rcv_leaves(segment, p, rcv, n) implies
-            has_vehicle(s.or_form_mid(segment, p, rcv, n), rcv)
-            && tf2[n].formation@ == s.or_form_mid(segment, p, rcv, n).remove(first_pos(s.or_form_mid(segment, p, rcv, n), rcv)) by {
-            assert(second);
-            assert(moved_nd(net, d, n));
-            assert(s.shrinks(Some(rcv), none));
-            assert(tf1[n].formation@ == s.or_form_mid(segment, p, rcv, n));
-            assert(tf2[n].formation@ == s.repl_seq(tf1[n].formation@, Some(rcv), none));
-            assert(s.repl_ok(tf1[n].formation@, Some(rcv), none, n));
-        }
-        assert(s.or_formations_elsewhere(segment, p, rcv, tf2));
-        assert(s.or_formations_moved(segment, p, rcv, tf2));
-        assert(s.or_formations_displaced(segment, p, rcv, tf2));
     }
 }
-/// C09: the unserved-passenger pair
+/// nodes that are not service trips contribute nothing to the unserved passengers
+pub proof fn lemma_un_sum_no_service(s: &Schedule, tf: Formations, provider: Option<VehicleIdx>, receiver: Option<Vehicle>, moved: Seq<NodeIdx>, k: int, after: bool, c: int)
+    requires 0 <= k <= moved.len(), !has_service(&s.network, moved),
+    ensures s.un_sum(tf, provider, receiver, moved, k, after, c) == 0,
+    decreases k,
+{
+    if k > 0 {
+        lemma_un_sum_no_service(s, tf, provider, receiver, moved, k - 1, after, c);
+        assert(!(s.network.sp_node(moved[k - 1]) is Service));
+    }
+}
+/// C09: the unserved-passenger pair (the second update runs for a real receiver, or is skipped -- then no displaced node is
+/// a service trip, or the receiver is a dummy)
 pub proof fn lemma_or_unserved_post(s: &Schedule, segment: Segment, p: VehicleIdx, rcv: VehicleIdx, tf1: Formations, u1: (PassengerCount, PassengerCount), uf: (PassengerCount, PassengerCount))
     ensures
         ({
             let d = s.or_displaced(segment, p, rcv);
             let k = d.len() as int;
             s.or_between(segment, p, rcv, tf1, u1)
-            && (if s.or_second_update(segment, p, rcv) {
-                    &&& uf.0 == u1.0 - s.un_sum(tf1, Some(rcv), None, d, k, false, 0) + s.un_sum(tf1, Some(rcv), None, d, k, true, 0)
-                    &&& uf.1 == u1.1 - s.un_sum(tf1, Some(rcv), None, d, k, false, 1) + s.un_sum(tf1, Some(rcv), None, d, k, true, 1)
-                } else { uf == u1 })
+            && ((s.sp_is_vehicle(rcv)
+                    && uf.0 == u1.0 - s.un_sum(tf1, Some(rcv), None, d, k, false, 0) + s.un_sum(tf1, Some(rcv), None, d, k, true, 0)
+                    && uf.1 == u1.1 - s.un_sum(tf1, Some(rcv), None, d, k, false, 1) + s.un_sum(tf1, Some(rcv), None, d, k, true, 1))
+                || (uf == u1 && (!s.sp_is_vehicle(rcv) || !has_service(&s.network, d))))
         }) ==> s.or_unserved_after(segment, p, rcv, uf),
 {
+    let d = s.or_displaced(segment, p, rcv);
+    let k = d.len() as int;
+    let none: Option<Vehicle> = None;
+    if !has_service(&s.network, d) {
+        lemma_un_sum_no_service(s, tf1, Some(rcv), none, d, k, false, 0);
+        lemma_un_sum_no_service(s, tf1, Some(rcv), none, d, k, true, 0);
+        lemma_un_sum_no_service(s, tf1, Some(rcv), none, d, k, false, 1);
+        lemma_un_sum_no_service(s, tf1, Some(rcv), none, d, k, true, 1);
+    }
 }
 
 // =====================================================================================================
